@@ -850,6 +850,10 @@ func (e *Engine) registerIntrinsicsFor(pp string) {
 		in.path.mapOrder = a[0].(*Term).val == 1
 		return nil
 	}
+	m[pp+".vMapReverse"] = func(in *Interp, fn *ssa.Function, a []Value) Value {
+		in.path.mapReverse = a[0].(*Term).val == 1
+		return nil
+	}
 	m[pp+".vParam"] = func(in *Interp, fn *ssa.Function, a []Value) Value {
 		l, _ := a[0].(Str).concrete()
 		if v, ok := in.w.eng.params[l]; ok {
